@@ -19,6 +19,11 @@ def _opaque(v, depth=0):
     about the value: use the class name and its public attributes instead; a class with its own __repr__ is trusted."""
     if type(v).__repr__ is not object.__repr__:
         return type(v).__name__ + ":" + repr(v)
+    if type(v).__str__ is not object.__str__:
+        try:
+            return {"class": type(v).__name__, "str": str(v)}
+        except Exception:
+            pass
     try:
         attrs = vars(v)
     except TypeError:
@@ -54,7 +59,7 @@ def _layout(l):
         "extent": None if e is None else [_size(getattr(e, "horizontal", None)), _size(getattr(e, "vertical", None))],
         "padding": None if p is None else [_size(getattr(p, k, None)) for k in ("before", "after", "start", "end")],
         "alignment": None if a is None else [_enum(getattr(a, "horizontal", None)), _enum(getattr(a, "vertical", None))],
-        "webvtt": getattr(l, "webvtt_positioning", None),
+        "webvtt": _plain(getattr(l, "webvtt_positioning", None)),
     }
 
 
